@@ -97,7 +97,11 @@ func (w *FindRules) Do(ctx *Context, loc *Location) {
 	w.Children = make([]*EvalRule, 0, 0)
 	for id, rule := range rs {
 		Log(DEBUG, ctx, "FindRules.Do", "rid", id)
-		rule.Id = id
+		if rule.Id != id {
+			// Not a (shared) cached rule, which already
+			// has its id.
+			rule.Id = id
+		}
 
 		var bss []Bindings
 		var err error
